@@ -99,8 +99,9 @@ def run_check(prop, tier, seed, replay=None):
     assumptions = list(getattr(prop, "ASSUMPTIONS", []))
 
     # 1. static development (models, specs, parametric theorems)
-    banned_tokens_gate(dep_closure(pid, getattr(prop, "TIE_IMPORTS", "")))
-    built_ok, build_log = core.ensure_static_built()
+    deps = dep_closure(pid, getattr(prop, "TIE_IMPORTS", ""))
+    banned_tokens_gate(deps)
+    built_ok, build_log = core.ensure_static_built(deps)
     pfile = COQ / "Properties" / f"{pid}.v"
     static_thms = []
     if pfile.exists():
